@@ -10,3 +10,4 @@ import VibeProof.Props.C17
 #print axioms VibeProof.C17.C17_delete
 #print axioms VibeProof.C17.C17_delete_specific
 #print axioms VibeProof.C17.C17_bulk_load
+#print axioms VibeProof.C17.C17_range_scan_entries
